@@ -323,6 +323,7 @@ class PathCond(object):
         self.region = region
         self.dag_pred = {b: [(p, ix) for (p, ix) in dag_pred.get(b, ()) if p in region] for b in region}
         self.cond = {}
+        self.switch = {}
         self.atoms = []
         # only branches the target is (transitively, within the iteration) control dependent on can decide whether it
         # is reached; every other branch in the region leads to the target on both edges
@@ -332,7 +333,7 @@ class PathCond(object):
                 continue
             blk = blocks[b]
             live = [s for s in blk.succ if s is not None]
-            if len(blk.succ) == 2 and len(live) >= 1 and blk.succ[0] != blk.succ[1]:
+            if len(blk.succ) == 2 and len(live) >= 1 and blk.succ[0] != blk.succ[1] and blk.termk != 'SwitchStmt':
                 c = cfg.effective_cond(blk)
                 f = None
                 if c is not None:
@@ -343,7 +344,22 @@ class PathCond(object):
                 for a in f_atoms(f):
                     if a not in self.atoms:
                         self.atoms.append(a)
-            elif len(blk.succ) > 2:
+            elif len(blk.succ) > 2 or blk.termk == 'SwitchStmt':
+                sw = cfg.switch_edges(blk)
+                if sw is not None:
+                    # the edge of `case c` is taken iff E == c (first matching label wins), the default edge otherwise
+                    edges = []
+                    for (ix, cmpn) in sw[1]:
+                        if cmpn is None:
+                            edges.append((ix, None))
+                            continue
+                        f = formula(cmpn, lambda leaf: atomize(leaf) or f_atom(('opaque', leaf.i)))
+                        edges.append((ix, f))
+                        for a in f_atoms(f):
+                            if a not in self.atoms:
+                                self.atoms.append(a)
+                    self.switch[b] = edges
+                    continue
                 for ix in range(len(blk.succ)):
                     a = ('switch', b, ix)
                     if a not in self.atoms:
@@ -373,6 +389,19 @@ class PathCond(object):
                 if f is not None:
                     c = f_eval(f, env)
                     if (ix == 0) == bool(c):
+                        r = True
+                        break
+                elif p in self.switch:
+                    chosen = None
+                    dflt = None
+                    for (jx, f2) in self.switch[p]:
+                        if f2 is None:
+                            dflt = jx
+                        elif chosen is None and f_eval(f2, env):
+                            chosen = jx
+                    if chosen is None:
+                        chosen = dflt
+                    if ix == chosen:
                         r = True
                         break
                 elif len(blk.succ) > 2:
@@ -416,7 +445,91 @@ def formula(n, atomize):
     cv = s.cv
     if cv is not None and s.k not in CALL_KINDS:
         return ('const', bool(cv))
-    return atomize(s)
+    r = atomize(s)
+    if (r is None or (r[0] == 'atom' and isinstance(r[1], tuple) and r[1] and r[1][0] in ('opaque', 'acc-opaque'))) and \
+            s.k == 'DeclRefExpr' and s.decl_id is not None and s.fn is not None and len(_BOOL_STACK) < 4 and s.decl_id not in _BOOL_STACK:
+        # a bool local defined exactly once by a condition expression stands for that expression
+        v = s.prog.vars[s.decl_id]
+        if v.get('kind') == 'local' and (s.prog.base_type(v.get('ty')) or {}).get('bool'):
+            d = unique_def(s.fn, s.decl_id)
+            if d is not None and d.strip_all().cv is None:
+                _BOOL_STACK.append(s.decl_id)
+                try:
+                    f = formula(d, atomize)
+                finally:
+                    _BOOL_STACK.pop()
+                if f is not None:
+                    return f
+    if r is None or (r[0] == 'atom' and isinstance(r[1], tuple) and r[1] and r[1][0] in ('opaque', 'acc-opaque')):
+        # unrecognised leaf: a call of a one-expression predicate (local lambda, repo helper) is looked through
+        inl = inline_predicate(s)
+        if inl is not None:
+            ret, binding = inl
+            SUBST.append(binding)
+            try:
+                f = formula(ret, atomize)
+            finally:
+                SUBST.pop()
+            if f is not None and not [a for a in f_atoms(f) if isinstance(a, tuple) and a and a[0] in ('opaque', 'acc-opaque')]:
+                return f
+    return r
+
+
+_BOOL_STACK = []
+SUBST = []   # stack of {param var id: argument node} while a predicate lambda is inlined
+
+
+def subst(n):
+    """the argument bound to n when n names a parameter of a predicate that is being inlined (see formula)"""
+    if n is None:
+        return n
+    s = n.strip_all()
+    seen = 0
+    while s.k == 'DeclRefExpr' and s.decl_id is not None and seen < 4:
+        for b in reversed(SUBST):
+            if s.decl_id in b:
+                s = b[s.decl_id].strip_all()
+                break
+        else:
+            break
+        seen += 1
+    return s
+
+
+def inline_predicate(s):
+    """(returned expression, {param: arg}) when s calls a local lambda (or a repo function) whose body is a single
+    `return <expr>;`"""
+    if len(SUBST) > 3:
+        return None
+    prog = s.prog
+    f = None
+    args = None
+    if s.k == 'CXXOperatorCallExpr' and s.op == '()' and len(s.c) >= 2:
+        obj = s.c[1].strip_all()
+        v = var_of(obj)
+        if v is not None and s.fn is not None:
+            d = unique_def(s.fn, v)
+            if d is None and SUBST:
+                return None
+            dd = d.strip_all() if d is not None else None
+            if dd is not None and dd.k == 'LambdaExpr':
+                ops = [prog.fn_of_fref(op) for op in dd.j.get('lambda_ops', ())]
+                ops = [o for o in ops if o is not None]
+                if len(ops) == 1:
+                    f = ops[0]
+                    args = s.c[2:]
+    elif s.k in ('CallExpr', 'CXXMemberCallExpr') and s.callee and s.callee.get('in_repo') and s.callee_id is not None:
+        f = prog.fn_of_fref(s.callee_id)
+        args = s.args()
+    if f is None or f.body is None:
+        return None
+    stmts = [c for c in f.body.c] if f.body.k == 'CompoundStmt' else [f.body]
+    if len(stmts) != 1 or stmts[0].k != 'ReturnStmt' or not stmts[0].c:
+        return None
+    pids = list(f.param_ids)
+    if len(pids) != len(args):
+        return None
+    return stmts[0].c[0], dict(zip(pids, args))
 
 
 # ------------------------------------------------------------------------------------------------
@@ -499,6 +612,43 @@ def unique_def(fn, var_id):
     if len(ds) == 1:
         return ds[0][1]
     return None
+
+
+def alias_of(fn, node, depth=0):
+    """follow local aliases: if `node` names a local variable that is defined exactly once (a const value or a reference,
+    never re-assigned) and nothing its defining expression reads is written inside the innermost loop around the
+    definition, return that defining expression (stripped), recursively; otherwise the stripped node itself"""
+    s = node.strip_all() if node is not None else None
+    if s is None or depth > 4 or s.k != 'DeclRefExpr' or s.decl_id is None:
+        return s
+    v = s.prog.vars[s.decl_id] if s.decl_id < len(s.prog.vars) else None
+    if not v or v.get('kind') != 'local':
+        return s
+    ty = s.prog.type(v.get('ty')) or {}
+    is_ref = 'base' in ty and ty.get('s', '').rstrip().endswith('&')
+    if not (is_ref or v.get('constq')):
+        return s
+    ds = assignments_to(fn, s.decl_id)
+    if len(ds) != 1 or ds[0][1] is None:
+        return s
+    decl, rhs = ds[0]
+    r = rhs.strip_all()
+    if r.k not in ('DeclRefExpr', 'CXXOperatorCallExpr', 'MemberExpr', 'ArraySubscriptExpr', 'CXXMemberCallExpr', 'CallExpr'):
+        return s
+    if r.k in ('CXXOperatorCallExpr',) and r.op != '[]':
+        return s
+    if r.k in ('CXXMemberCallExpr', 'CallExpr') and not (r.callee and r.callee['name'] in ('at', 'get')):
+        return s
+    scope = decl.enclosing('ForStmt', 'WhileStmt', 'CXXForRangeStmt', 'DoStmt')
+    body = scope.body if scope is not None and getattr(scope, 'body', None) is not None else fn.body
+    for vid in vars_in(r):
+        vi = s.prog.vars[vid] if vid < len(s.prog.vars) else {}
+        if vi.get('kind') not in ('local', 'param'):
+            continue
+        for (an, _r) in assignments_to(fn, vid):
+            if an.k != 'VarDecl' and body.is_ancestor_of(an) and an.k in ('BinaryOperator', 'CompoundAssignOperator', 'UnaryOperator'):
+                return s
+    return alias_of(fn, r, depth + 1)
 
 
 def returns_of(fn):
@@ -665,6 +815,16 @@ def membership(leaf):
     s = leaf.strip_all()
     if s.k == 'CXXOperatorCallExpr' and s.op in ('==', '!=') and len(s.c) == 3:
         a, b = s.c[1].strip_all(), s.c[2].strip_all()
+
+        def through_iterator(x):
+            # `it` defined once as c.find(k)
+            if x.k == 'DeclRefExpr' and x.decl_id is not None and x.fn is not None:
+                d = unique_def(x.fn, x.decl_id)
+                dd = d.strip_all() if d is not None else None
+                if dd is not None and dd.k == 'CXXMemberCallExpr' and dd.callee and dd.callee['name'] == 'find':
+                    return dd
+            return x
+        a, b = through_iterator(a), through_iterator(b)
         for x, y in ((a, b), (b, a)):
             if x.k == 'CXXMemberCallExpr' and x.callee and x.callee['name'] == 'find' and x.args() and \
                     y.k == 'CXXMemberCallExpr' and y.callee and y.callee['name'] in ('end', 'cend') and \
@@ -681,7 +841,8 @@ def membership(leaf):
     if s.k == 'BinaryOperator' and s.op in ('==', '!=', '>', '<', '>=', '<=') and len(s.c) == 2:
         a, b = s.c[0].strip_all(), s.c[1].strip_all()
         for x, y, flip in ((a, b, False), (b, a, True)):
-            if x.k == 'CXXMemberCallExpr' and x.callee and x.callee['name'] == 'count' and x.args() and y.cv in (0, 1):
+            if x.k == 'CXXMemberCallExpr' and x.callee and x.callee['name'] in ('count', 'erase') and x.args() and y.cv in (0, 1) and \
+                    (x.callee['name'] == 'count' or _erase_by_key(x)):
                 op = s.op
                 if flip:
                     op = {'>': '<', '<': '>', '>=': '<=', '<=': '>=', '==': '==', '!=': '!='}[op]
@@ -692,6 +853,12 @@ def membership(leaf):
                     return None
                 return (x.object_arg(), x.args()[0], truth)
     return None
+
+
+def _erase_by_key(x):
+    """c.erase(key) of a set/map (returns the number of elements removed: 1 iff key was a member), not erase(iterator)"""
+    rt = (x.prog.type(x.callee.get('ret')) or {}) if x.callee else {}
+    return bool(rt.get('int')) and not rt.get('bool')
 
 
 def sorted_before(fn, container_var, node):
